@@ -992,9 +992,10 @@ impl World<Tok> {
             Err(w) => {
                 if obs != *w {
                     out.oracle_fail(&format!("{op}: expected `{w}`, implementation gave `{obs}`"));
+                    self.refs[dst] = None;
+                    self.regs[dst] = None;
                 }
-                self.refs[dst] = None;
-                self.regs[dst] = None;
+                // a failed conversion assigns nothing: the destination register keeps its matrix
             }
         }
         out.observe(&obs);
